@@ -1285,58 +1285,139 @@ class Engine(Exec):
         return 0, len(seq), (lambda s, i: self.assign(tgt, seq[i], s, fr)), '_i'
 
     def havoc_set(self, body, st, fr):
+        """What a loop body may change: (names and object attributes to forget, arrays to havoc).  Conservative and syntactic:
+        assigned names; arrays written by subscript assignment (directly, through a view, or through an attribute of an object);
+        arrays handed to callees that may write them (by the callee contract's modifies list - parameter names or expressions - or,
+        for inlined callees, by a scan of their bodies, including writes to attributes of `self`)."""
+        # nothing evaluated here leaks into the state: the counters for fresh names are restored, so that the text of the VCs
+        # does not depend on how much was looked at
+        saved_counters = (smt._fresh_counter[0], V._arr_counter[0], V._obj_counter[0])
+        try:
+            return self._havoc_set(body, st, fr)
+        finally:
+            smt._fresh_counter[0], V._arr_counter[0], V._obj_counter[0] = saved_counters
+
+    def _havoc_set(self, body, st, fr):
         names, arrs, calls = assigned_names(body)
+        names = set(names)
         arr_objs = []
-        for a in arrs:
-            try:
-                v = self.ev(ast.parse(a, mode='eval').body, st, fr)
-            except Exception:
-                continue
+        tmp = st.fork()
+        for n in names:
+            if n not in tmp.env:
+                tmp.env[n] = z3.Int('hv!' + n)      # loop-local names, only needed to evaluate view expressions
+
+        def add(v):
             if isinstance(v, Arr):
                 arr_objs.append(v)
-            elif isinstance(v, ArrView):
+            elif isinstance(v, (ArrView, FlatView)):
                 arr_objs.append(v.base)
-        for c in calls:
+
+        def try_ev(node, state=tmp):
+            # evaluation only to find out WHICH array an expression denotes: no obligations, no effect on the state
+            n_ob = len(self.ctx.obligations)
+            old_spec = fr.spec_only
+            fr.spec_only = True
             try:
-                f = self.ev(c.func, st, fr)
+                return self.ev(node, state.fork(), fr)
             except Exception:
-                continue
+                return None
+            finally:
+                fr.spec_only = old_spec
+                del self.ctx.obligations[n_ob:]
+        for a in arrs:
+            add(try_ev(ast.parse(a, mode='eval').body))
+        # attribute stores in the body itself: obj.attr = ...
+        for s_ in body:
+            for n in ast.walk(s_):
+                if isinstance(n, (ast.Assign, ast.AugAssign, ast.AnnAssign)):
+                    for t in (n.targets if isinstance(n, ast.Assign) else [n.target]):
+                        for u in (t.elts if isinstance(t, (ast.Tuple, ast.List)) else [t]):
+                            if isinstance(u, ast.Attribute):
+                                o = try_ev(u.value)
+                                if isinstance(o, Obj):
+                                    names.add(('attr', o.oid, u.attr))
+        for c in calls:
+            f = try_ev(c.func)
             if not isinstance(f, FunVal) or f.kind not in ('repo', 'method', 'param'):
                 continue
-            mod_positions = None
+            selfobj = None
+            fnode = None
+            mod = None
             if f.kind == 'param':
                 cc = self.ctx.contracts[f.ref]
-                params = cc.params_order
+                params = list(cc.params_order)
                 mods = cc.modifies
             else:
-                mod, qual, fnode, selfobj = self.resolve(f, fr)
+                try:
+                    mod, qual, fnode, selfobj = self.resolve(f, fr)
+                except Exception:
+                    continue
                 cc = self.ctx.contract_for(mod.relpath, qual)
                 params = [p.arg for p in fnode.args.args]
-                if selfobj is not None:
+                if selfobj is not None and not any(isinstance(d, ast.Name) and d.id == 'staticmethod' for d in fnode.decorator_list):
                     params = params[1:]
+                else:
+                    selfobj = None if not params or params[0] != 'self' else selfobj
                 mods = cc.modifies if cc is not None else None
                 if cc is not None and mods is None:
                     from .verify import default_modifies
                     mods = default_modifies(fnode, cc)
-                elif cc is None:
+                elif cc is None or cc.inline:
                     mods = self.syntactic_modifies(mod, fnode)
-            for k, a in enumerate(c.args):
-                if isinstance(a, ast.Name) and a.id in st.env and isinstance(st.env[a.id], (Arr, ArrView)):
-                    if mods is None or (k < len(params) and params[k] in mods):
-                        av = st.env[a.id]
-                        arr_objs.append(av.base if isinstance(av, ArrView) else av)
-                elif isinstance(a, ast.Subscript):
-                    # a view expression handed to a callee that may write through it
-                    b = a
-                    while isinstance(b, ast.Subscript):
-                        b = b.value
-                    try:
-                        av = self.ev(b, st, fr)
-                    except Exception:
-                        av = None
-                    if isinstance(av, (Arr, ArrView)) and (mods is None or (k < len(params) and params[k] in mods)):
-                        arr_objs.append(av.base if isinstance(av, ArrView) else av)
+                    cc = None
+            argvals = [try_ev(a) for a in c.args]
+            for k, v in enumerate(argvals):
+                if isinstance(v, (Arr, ArrView, FlatView)) and (mods is None or (k < len(params) and params[k] in mods)):
+                    add(v)
+            if cc is not None and mods:
+                # modifies entries that are expressions over the callee's parameters (self._coeffs, grid._f, ...)
+                exprs = [m for m in mods if not m.isidentifier()]
+                if exprs:
+                    env = dict(zip(params, argvals))
+                    if selfobj is not None:
+                        env['self'] = selfobj
+                    cst = tmp.fork()
+                    cst.env = env
+                    cfr = self.contract_frame(cc, (mod, f.name, fnode) if mod is not None else None, fr)
+                    cfr.spec_only = True
+                    n_ob = len(self.ctx.obligations)
+                    for m in exprs:
+                        try:
+                            add(self.ev(self.ctx.clause_ast(m), cst, cfr))
+                        except Exception:
+                            pass
+                    del self.ctx.obligations[n_ob:]
+            if cc is None and fnode is not None and selfobj is not None:
+                # inlined method: arrays and scalar attributes of self written in its body (one more level of self-calls)
+                for (kind, attr) in self.self_writes(mod, fnode, 0):
+                    val = st.objs.get(selfobj.oid, {}).get(attr)
+                    if kind == 'arr':
+                        add(val)
+                    else:
+                        names.add(('attr', selfobj.oid, attr))
         return names, arr_objs
+
+    def self_writes(self, mod, fnode, depth):
+        """('arr' | 'scalar', attribute) pairs that a method body writes through `self` (syntactic; follows self.method() calls)."""
+        out = set()
+        for n in ast.walk(fnode):
+            if isinstance(n, (ast.Assign, ast.AugAssign, ast.AnnAssign)):
+                for t in (n.targets if isinstance(n, ast.Assign) else [n.target]):
+                    for u in (t.elts if isinstance(t, (ast.Tuple, ast.List)) else [t]):
+                        b = u
+                        sub = False
+                        while isinstance(b, ast.Subscript):
+                            b = b.value
+                            sub = True
+                        if isinstance(b, ast.Attribute) and isinstance(b.value, ast.Name) and b.value.id == 'self':
+                            out.add(('arr' if sub else 'scalar', b.attr))
+            elif isinstance(n, ast.Call) and depth < 2 and isinstance(n.func, ast.Attribute) and isinstance(n.func.value, ast.Name) \
+                    and n.func.value.id == 'self':
+                cls = fnode and getattr(fnode, '_cls', None)
+                for q, fn2 in mod.functions.items():
+                    if q.endswith('.' + n.func.attr) and fn2 is not fnode:
+                        out |= self.self_writes(mod, fn2, depth + 1)
+        return out
 
     def syntactic_modifies(self, mod, fnode, depth=0):
         """Parameters of an inlined callee that its body may write (conservative syntactic scan)."""
@@ -1370,6 +1451,22 @@ class Engine(Exec):
 
     def do_havoc(self, st, names, arr_objs, keep=()):
         for n in names:
+            if isinstance(n, tuple) and n and n[0] == 'attr':
+                _, oid, attr = n
+                cur = st.objs.get(oid, {}).get(attr)
+                if cur is None:
+                    continue
+                if is_intlike(cur):
+                    st.objs[oid][attr] = fresh(attr, 'int')
+                elif is_reallike(cur):
+                    st.objs[oid][attr] = fresh(attr, 'real')
+                elif is_boollike(cur):
+                    st.objs[oid][attr] = fresh(attr, 'bool')
+                elif isinstance(cur, (Arr, V.Opaque)):
+                    pass
+                else:
+                    del st.objs[oid][attr]
+                continue
             if n in keep:
                 continue
             v = st.env.get(n)
